@@ -171,6 +171,49 @@
                 !r ==> (exists|i: int| 0 <= i < x@.len() && call_ensures(f, ((&#[trigger] x@[i], &y@[i]),), false)),
     { unimplemented!() }
     // ---- where the candidates come from (uninterpreted: the token-level matcher is outside the verified set)
+    /// derived Clone of InstructionMatch (ASSUMED: an equal value)
+    impl Clone for InstructionMatch {
+        #[verifier::external_body]
+        fn clone(&self) -> (r: InstructionMatch) ensures r == *self { unimplemented!() }
+    }
+    /// `vec![(m, w)]`: a one-element vector (R16)
+    #[verifier::external_body]
+    pub fn verif_one<'src>(m: InstructionMatch, w: syntax::Walker<'src>) -> (r: Vec<WorkingMatch<'src>>) ensures r@ == seq![(m, w)] { unimplemented!() }
+    // ---- C07: how one rule is laid over the text (match_with_rule), part by part
+    /// the matches an expression parameter / a sub-rule parameter at pattern part `at` contributes (match_with_expr,
+    /// match_with_nested_ruledef; uninterpreted here), with and without the look-ahead cut
+    pub uninterp spec fn expr_cands<'src>(defs: &ItemDefs, rule: Rule, w: syntax::Walker<'src>, all: bool, at: int, lookahead: bool, m: InstructionMatch) -> Seq<WorkingMatch<'src>>;
+    pub uninterp spec fn nested_cands<'src>(defs: &ItemDefs, sub: int, rule: Rule, w: syntax::Walker<'src>, all: bool, at: int, lookahead: bool, m: InstructionMatch) -> Seq<WorkingMatch<'src>>;
+    /// every parameter slot of the pattern names a declared parameter, no literal part is the NUL character
+    pub open spec fn rule_wf(rule: Rule) -> bool {
+        forall|i: int| 0 <= i < rule.pattern@.len() ==> (match #[trigger] rule.pattern@[i] {
+            RulePatternPart::ParameterIndex(p) => p < rule.parameters@.len(),
+            // the walker answers NUL at the end of the text: a pattern never spells that character
+            RulePatternPart::Exact(c) => !syntax::same_ignoring_ascii_case('\0', c),
+            _ => true,
+        })
+    }
+    /// From pattern part i on: a literal character must be the next character of the text (blanks and comments before
+    /// it are skipped, ASCII case is ignored - whatever the parts around it are); a blank in the pattern asks for a
+    /// blank as the very next token unless the text is over; a parameter slot hands over to the expression or sub-rule
+    /// matcher, first without and then with the look-ahead cut, and their matches are the result; after the last part the
+    /// match stands if the text is used up (or need not be).
+    pub open spec fn rule_match<'src>(defs: &ItemDefs, rule: Rule, w: syntax::Walker<'src>, all: bool, i: int, m: InstructionMatch) -> Seq<WorkingMatch<'src>>
+        decreases rule.pattern@.len() - i
+    {
+        if i < 0 { Seq::empty() }
+        else if i >= rule.pattern@.len() { if !syntax::over(w) && all { Seq::empty() } else { seq![(m, w)] } }
+        else {
+            match rule.pattern@[i] {
+                RulePatternPart::Exact(c) => match syntax::char_step(w, c) { None => Seq::empty(), Some(w2) => rule_match(defs, rule, w2, all, i + 1, m) },
+                RulePatternPart::Whitespace => if !syntax::over(w) && !syntax::next_is_blank(w) { Seq::empty() } else { rule_match(defs, rule, w, all, i + 1, m) },
+                RulePatternPart::ParameterIndex(p) => match rule.parameters@[p as int].typ {
+                    RuleParameterType::RuledefRef(sub) => nested_cands(defs, sub.0 as int, rule, w, all, i, false, m) + nested_cands(defs, sub.0 as int, rule, w, all, i, true, m),
+                    _ => expr_cands(defs, rule, w, all, i, false, m) + expr_cands(defs, rule, w, all, i, true, m),
+                },
+            }
+        }
+    }
     /// the candidates one rule yields for an instruction text (begin_match_with_rule; uninterpreted)
     pub uninterp spec fn rule_candidates(defs: &ItemDefs, d: int, r: int, key: (Seq<char>, usize, usize)) -> Seq<InstructionMatch>;
     /// RuledefMap::parse_prefix of the text and the five groups query_prefixed returns for it (uninterpreted here)
